@@ -136,7 +136,7 @@ def squash(X, r=None, base=None, x0=None, method="logistic", return_params=False
         else:
             result = 1 - np.power(base, -np.power(X - x0, 2) / r**2)
             Xz = 1 - np.power(base, -np.power(0 - x0, 2) / r**2)
-    if method == "exponential":
+    elif method == "exponential":
         x0 = 0  # not supported for exponential
         if r is None:
             if cover_quantile is False:
